@@ -9,7 +9,7 @@ PLAN = dict(
     assumptions=TRUSTED + ["a value returned by a decode call belongs to the caller (it may append to it), and the caller may reuse its input buffer once the calls have returned: held values are compared after both", "On a failed call the reader position is unspecified and not compared"],
     runs=[
         dict(name="conc", run="^(TestConcRoundTrip|TestConcStream)$", checks=(400, 20000), shards=(2, 8), timeout=(400, 3600), race=True),
-        dict(name="exh", run="^(TestExhaustiveHeads|TestExhaustiveRoundTripBoundaries|TestExhaustiveCodePoints|TestCorpus)$"),
+        dict(name="exh", run="^(TestExhaustiveHeads|TestExhaustiveRoundTripBoundaries|TestExhaustiveCodePoints|TestShapeSweep|TestCorpus)$"),
         dict(name="rt", run="^TestPropRoundTrip$", checks=(3000, 300000), shards=(1, 4)),
         dict(name="stream", run="^TestPropStream$", checks=(5000, 1000000), shards=(1, 16)),
         dict(name="resume", run="^TestPropResume$", checks=(5000, 500000), shards=(1, 8)),
